@@ -149,6 +149,20 @@ def check_lattice(inp):
             if cold[r] != warm[r]:
                 return ("%s(%r, %r) = %r as a first call but %r after merge_chord_intervals saw the same labels: the "
                         "value depends on call history, not on the labels" % (r, ref, est, cold[r], warm[r]))
+        if inp.get("history"):
+            # ... and vs. after OTHER labels were scored in the same process (labels that share scale degrees, qualities
+            # or roots with these, e.g. the same degree once added and once omitted)
+            fresh_library("chord")
+            for h1, h2 in inp["history"]:
+                try:
+                    _scores(h1, h2)
+                except mir_eval.chord.InvalidChordException:
+                    pass
+            warm = _scores(ref, est)
+            for r in cl.RULES:
+                if cold[r] != warm[r]:
+                    return ("%s(%r, %r) = %r as a first call but %r after %r were scored in the same process: the value "
+                            "depends on call history, not on the labels" % (r, ref, est, cold[r], warm[r], inp["history"]))
     s = _scores(ref, est)
     s2 = _scores(ref, est2)
     ss = _scores(ref, ref)
@@ -238,10 +252,31 @@ def _gen_pairs(rng, tier, shard, nshards, boost, n_quick, n_thorough, third):
         yield d
 
 
+def _polarity_twins(label):
+    """labels that use the parenthesised degrees of `label` with the other polarity (added <-> omitted)"""
+    import re
+    out = []
+    m = re.search(r"\(([^)]*)\)", label)
+    if m:
+        root = label.split(":")[0].split("/")[0].split("(")[0] or "C"
+        for deg in [x for x in m.group(1).split(",") if x]:
+            twin = deg[1:] if deg.startswith("*") else "*" + deg
+            out.append("%s:maj(%s)" % (root, twin))
+            out.append("%s:(%s,5)" % ("E" if root != "E" else "A", twin) if not twin.startswith("*") else "A:min(%s)" % twin)
+    return out
+
+
 def gen_lattice(rng, tier, shard, nshards, boost):
+    p = cl.pool()
     for d in _gen_pairs(rng, tier, shard, nshards, boost, 16000, 200000, True):
-        if rng.random() < 0.04:
+        u = rng.random()
+        if u < 0.04 or (u < 0.12 and "(" in d["ref"] + d["est"]):
             d["warm"] = True
+            if u >= 0.02:
+                hist = [p[rng.randrange(len(p))] for _ in range(rng.randint(1, 4))]
+                hist += _polarity_twins(d["ref"]) + _polarity_twins(d["est"])
+                rng.shuffle(hist)
+                d["history"] = [[h, hist[(k + 1) % len(hist)]] for k, h in enumerate(hist)]
         yield d
 
 
